@@ -176,3 +176,13 @@ type Step struct {
 	St  map[string]interface{} `json:"st"`
 	Exp map[string]interface{} `json:"exp"`
 }
+
+// safely turns a panic of the code under test into an error (reported like any other failed call)
+func safely(f func() error) (err error) {
+	defer func() {
+		if r := recover(); r != nil {
+			err = fmt.Errorf("panic: %v", r)
+		}
+	}()
+	return f()
+}
